@@ -317,7 +317,7 @@ MUTANTS = [
     dict(name="right extension not carried into the next fragment", file="strax/processing/data_reduction.py", only="reduce",
          old="        if end_keep > samples_per_record:", new="        if end_keep > samples_per_record + 1:"),
     dict(name="links ignore the fragment number", file="strax/processing/pulse_processing.py", only="links",
-         old='        if r["record_i"] == 0:\n            previous_record[i] = NO_RECORD_LINK\n\n        elif', new='        if False:\n            pass\n\n        elif'),
+         old='        if r["record_i"] == 0:', new='        if False:'),
 ]
 
 OBLIGATIONS = [
